@@ -396,6 +396,12 @@ def search(run, corr, deep):
     a2 = impl(r2)
     for r, a, (name, v, kind, want) in zip(r2, a2, m2):
         corr.count(None, "oracle: %s" % kind)
+        if kind in ('roundtrip', 'reserved-ignored') and a.startswith("ok "):
+            # identical field values and whole datagram consumed; additional decoded keys are not a difference
+            tok = a.split()
+            got, _ = cd.parse_val(tok, 1)
+            if tok[-1] == want.split()[-1] and same_fields(v, got):
+                continue
         if a != want:
             wit.append({"kind": kind, "pdu": name, "request": r[:1500], "impl": a[:600], "spec": want[:600],
                         "mod": v.get('mod'), "nope": v.get('nope'), "batched": len(v.get('bpdu', []))})
@@ -410,6 +416,14 @@ def search(run, corr, deep):
         if found >= 20:
             break
     return found
+
+
+def same_fields(want, got):
+    if isinstance(want, dict):
+        return isinstance(got, dict) and all(k in got and same_fields(want[k], got[k]) for k in want)
+    if isinstance(want, list):
+        return isinstance(got, list) and len(want) == len(got) and all(same_fields(a, b) for a, b in zip(want, got))
+    return want == got
 
 
 def explained_by_known(run, broken):
